@@ -1880,6 +1880,68 @@ func ruleAdjustCover(p *Prog, r *Result) {
 		if _, perChunk := mt.Elem().Underlying().(*types.Slice); perChunk {
 			n++
 			r.add(handled(adj, f.Name()), "AdjustChunkCache|"+f.Name(), p.Pos(adj.Pos()), "AdjustChunkCache re-indexes or empties the per-chunk cache "+f.Name()+" (entries computed on the unfiltered chunk must not be found for the filtered one)")
+			// ... on every way out (a fast path that returns early skips nothing), except where caching is switched off
+			var ops []ssa.Instruction
+			allInstrs(adj, func(in ssa.Instruction) {
+				switch x := in.(type) {
+				case *ssa.Range:
+					if isFieldLoad(x.X, "ExecuteCtx", f.Name()) {
+						ops = append(ops, in)
+					}
+				case *ssa.Call:
+					if b, isB := x.Call.Value.(*ssa.Builtin); isB && (b.Name() == "clear" || b.Name() == "delete") && len(x.Call.Args) > 0 && isFieldLoad(x.Call.Args[0], "ExecuteCtx", f.Name()) {
+						ops = append(ops, in)
+					} else if g := x.Call.StaticCallee(); g != nil && p.InPkg(g) && g != adj && handled(g, f.Name()) {
+						ops = append(ops, in)
+					}
+				case *ssa.Store:
+					if _, fl, _, ok := fieldOfAddr(x.Addr); ok && fl == f.Name() {
+						ops = append(ops, in)
+					}
+				}
+			})
+			reindexed := false
+			for _, op := range ops {
+				if _, isRange := op.(*ssa.Range); isRange {
+					reindexed = true
+				}
+			}
+			if reindexed {
+				// a cache that is re-indexed by position may legitimately be left alone when every row was chosen
+				continue
+			}
+			nret := 0
+			okAll := true
+			where := ""
+			for _, b := range adj.Blocks {
+				ret := retOf(b)
+				if ret == nil {
+					continue
+				}
+				off := false
+				for _, a := range dominatingAtoms(b) {
+					if _, fl, _, ok := loadedField(a.X); ok && fl == "EnableCache" {
+						if bv, isB := constBool(a.Y); isB && ((a.Op == token.EQL) == bv) == false {
+							off = true
+						}
+					}
+				}
+				if off {
+					continue
+				}
+				nret++
+				dom := false
+				for _, op := range ops {
+					if instrDominates(op, ret) {
+						dom = true
+					}
+				}
+				if !dom {
+					okAll = false
+					where = p.InstrPos(ret)
+				}
+			}
+			r.add(okAll && nret > 0, "AdjustChunkCache|"+f.Name()+"|every-exit", p.Pos(adj.Pos()), "every return of AdjustChunkCache (with caching on) is preceded by the emptying of "+f.Name()+firstNonEmpty(map[bool]string{true: " - not the one at " + where}[where != ""], ""))
 		}
 	}
 	r.floor("cache maintenance obligations", n, 4)
